@@ -871,8 +871,19 @@ static void minkCase(vh::Ctx& c) {
   vh::Rng& r = c.rng;
   // enumerate op x convexity combination by index so every combination gets the same share
   const int combo = (int)(c.idx % 8);
-  const bool isDiff = combo & 1, aConvex = combo & 2, bConvex = combo & 4;
+  // stage "minkbig": a non-convex A with MORE than 1000 triangles (the library
+  // sweeps A's faces in internal batches of 1000) and a small convex B
+  const bool bigA = c.iparam("bigA", 0) != 0;
+  const bool isDiff = combo & 1, aConvex = bigA ? false : (combo & 2), bConvex = bigA ? true : (combo & 4);
   Opnd A = makeOperand(r, aConvex), B = makeOperand(r, bConvex);
+  if (bigA) {
+    int seg = 4 * r.range(12, 17);  // Sphere(1, seg) has 8 (seg/4)^2 = 1152 .. 2312 triangles
+    A.m = Manifold::Sphere(1.0, seg) - Manifold::Cube(vec3(1.0)).Translate(vec3(0.2, 0.25, 0.3));
+    A.convex = false;
+    A.inMargin = 0.2;
+    A.desc = "(Sphere(1," + std::to_string(seg) + ")-Cube(1).T(0.2,0.25,0.3))";
+    c.count("mink_bigA_cases");
+  }
   // generic linear maps keep eps-validity and the origin inside
   auto generic = [&](Opnd& o, double size) {
     mat3 R = randRot(r);
@@ -882,9 +893,9 @@ static void minkCase(vh::Ctx& c) {
     o.inMargin *= 0.7 * size;
     o.desc += ".Linear(size=" + f17(size) + ")";
   };
-  double sizeA = r.uni(0.6, 1.6);
+  double sizeA = bigA ? 1.0 : r.uni(0.6, 1.6);
   // B both smaller and larger than A (the statement quantifies over all pairs of small solids)
-  double sizeB = r.chance(0.55) ? r.uni(0.15, 0.5) : r.uni(0.8, 2.2);
+  double sizeB = bigA ? r.uni(0.05, 0.09) : (r.chance(0.55) ? r.uni(0.15, 0.5) : r.uni(0.8, 2.2));
   generic(A, sizeA);
   generic(B, sizeB);
   // B: origin stays inside, moved off-centre by less than half the margin
